@@ -392,8 +392,7 @@ class _FPCore2FPy:
             ctx.stmts.append(stmt)
 
         # compile condition
-        cond_ctx = _Ctx(env=env, props=ctx.props, stmts=ctx.stmts)
-        cond_e = self._visit(e.cond, cond_ctx)
+        cond_e, recheck = self._visit_loop_cond(e.cond, env, ctx)
 
         # create loop body
         stmts: list[Stmt] = []
@@ -403,6 +402,7 @@ class _FPCore2FPy:
             update_e = self._visit(update, update_ctx)
             stmt = Assign(env[var], None, update_e, None)
             stmts.append(stmt)
+        stmts.extend(recheck())
 
         # append while statement
         while_stmt = WhileStmt(cond_e, StmtBlock(stmts), None)
@@ -411,6 +411,31 @@ class _FPCore2FPy:
         # compile body
         body_ctx = _Ctx(env=env, props=ctx.props, stmts=ctx.stmts)
         return self._visit(e.body, body_ctx)
+
+    def _visit_loop_cond(self, cond: fpc.Expr, env: dict[str, NamedId], ctx: _Ctx):
+        """The test of a `while` loop, and what re-evaluates it at the end of
+        the body.
+
+        A condition that is a plain expression is the loop's test as it is.
+        One that compiles to statements (it contains a `let`, an `if`, an
+        annotation, `fmin` ...) has to run them again on every iteration:
+        they are emitted before the loop, binding the test to a variable, and
+        once more -- compiled afresh -- at the end of the body.
+        """
+        cond_stmts: list[Stmt] = []
+        cond_e = self._visit(cond, _Ctx(env=env, props=ctx.props, stmts=cond_stmts))
+        if not cond_stmts:
+            return cond_e, lambda: []
+        c = self.gensym.fresh('c')
+        ctx.stmts.extend(cond_stmts)
+        ctx.stmts.append(Assign(c, None, cond_e, None))
+
+        def recheck() -> list[Stmt]:
+            again: list[Stmt] = []
+            again_e = self._visit(cond, _Ctx(env=env, props=ctx.props, stmts=again))
+            again.append(Assign(c, None, again_e, None))
+            return again
+        return Var(c, None), recheck
 
     def _visit_while(self, e: fpc.While, ctx: _Ctx) -> Expr:
         # initialize loop variables
@@ -425,8 +450,7 @@ class _FPCore2FPy:
             ctx.stmts.append(stmt)
 
         # compile condition
-        cond_ctx = _Ctx(env=env, props=ctx.props, stmts=ctx.stmts)
-        cond_e = self._visit(e.cond, cond_ctx)
+        cond_e, recheck = self._visit_loop_cond(e.cond, env, ctx)
 
         # create loop body
         loop_env = dict(env)
@@ -447,6 +471,7 @@ class _FPCore2FPy:
             t = loop_env[var]
             stmt = Assign(v, None, Var(t, None), None)
             stmts.append(stmt)
+        stmts.extend(recheck())
 
         # append while statement
         while_stmt = WhileStmt(cond_e, StmtBlock(stmts), None)
